@@ -231,7 +231,7 @@ type recSink struct {
 	calls  int
 }
 
-func (r *recSink) GetConfig() map[string]interface{}   { return r.inner.GetConfig() }
+func (r *recSink) GetConfig() map[string]interface{}  { return r.inner.GetConfig() }
 func (r *recSink) startFullSync(runner *Runner) error { return r.inner.startFullSync(runner) }
 func (r *recSink) endFullSync(ctx context.Context, runner *Runner) error {
 	return r.inner.endFullSync(ctx, runner)
@@ -248,15 +248,18 @@ func (r *recSink) processEntities(runner *Runner, entities []*server.Entity) err
 type c18Params struct {
 	Shape c18Shape `json:"shape"`
 	Batch int      `json:"batch"` // batch size of the initial and the final catch-up
+	// LatestOnly: the job's source is declared with LatestOnly (superseded versions are skipped when reading changes)
+	LatestOnly bool `json:"latest_only,omitempty"`
 }
 
 type c18Hist struct {
-	jw    *JWorld
-	h     *server.VHist
-	shape c18Shape
-	id    string
-	jb    *job
-	chk   *server.VCheck
+	jw         *JWorld
+	h          *server.VHist
+	shape      c18Shape
+	latestOnly bool
+	id         string
+	jb         *job
+	chk        *server.VCheck
 	// fixpoint bookkeeping
 	fixCommit int            // model commit index at the previous fixpoint
 	fixLen    map[string]int // model feed length per dataset at the previous fixpoint
@@ -274,9 +277,13 @@ func (c *c18Hist) jobConfig(batch int) []byte {
 		}
 		deps = append(deps, map[string]interface{}{"dataset": c.h.DsName(d.DS), "joins": joins})
 	}
+	src := map[string]interface{}{"Type": "MultiSource", "Name": c.h.DsName("M"), "Dependencies": deps}
+	if c.latestOnly {
+		src["LatestOnly"] = true
+	}
 	cfg := map[string]interface{}{
 		"id": c.id, "title": c.id, "paused": true, "batchSize": batch,
-		"source":   map[string]interface{}{"Type": "MultiSource", "Name": c.h.DsName("M"), "Dependencies": deps},
+		"source":   src,
 		"sink":     map[string]interface{}{"Type": "DevNullSink"},
 		"triggers": []interface{}{map[string]interface{}{"triggerType": "cron", "jobType": "incremental", "schedule": "0 0 1 1 *"}},
 	}
@@ -547,7 +554,7 @@ func c18Replay(task engine.SeqTask) (res engine.SeqResult) {
 	}()
 	jw := jWorld()
 	h := jw.W.NewHist()
-	c := &c18Hist{jw: jw, h: h, shape: p.Shape, first: true, fixLen: map[string]int{}}
+	c := &c18Hist{jw: jw, h: h, shape: p.Shape, latestOnly: p.LatestOnly, first: true, fixLen: map[string]int{}}
 	jw.Jobs++
 	c.id = fmt.Sprintf("c18-%s-%d", h.Tag, jw.Jobs)
 	c.chk = &server.VCheck{H: h}
@@ -725,7 +732,7 @@ func init() {
 		}
 	})
 	engine.RegisterCheck("C18", func(r *engine.Run) {
-		r.Rule = "SEQ: for every join shape (2 one-hop, 4 two-hop and 8 three-hop direction patterns, a path through the main dataset in the middle, and two declared dependencies sharing a link dataset; declared in JSON and parsed by the real scheduler) and every batch size in the stated set: every history up to the stated depth over {7 entity variants per dataset: property change, link to target 1/2/both/none, delete, second entity; run to fixpoint with batch size 1/2, one run whose sink rejects its 1st/2nd call} starting from a populated graph on which the job has caught up; every history ends with a run-to-fixpoint (the job is run until its token stops changing) whose emitted entities (recording double around the real DevNullSink) must contain every main entity that changed, every main entity connected now through the join path to a dependency or link entity changed since the previous fixpoint, and - for a first outgoing hop - connected as of the previous fixpoint; emitted entities must be versions of main-dataset entities with the latest version among them; tokens never go back nor beyond the end. distinct = distinct canonical end states"
+		r.Rule = "SEQ: for every join shape (2 one-hop, 4 two-hop and 8 three-hop direction patterns, a path through the main dataset in the middle, and two declared dependencies sharing a link dataset; declared in JSON and parsed by the real scheduler) and every batch size in the stated set (and, for shapes with an outgoing first hop of at most two hops, also with the source declared LatestOnly): every history up to the stated depth over {7 entity variants per dataset: property change, link to target 1/2/both/none, delete, second entity; run to fixpoint with batch size 1/2, one run whose sink rejects its 1st/2nd call} starting from a populated graph on which the job has caught up; every history ends with a run-to-fixpoint (the job is run until its token stops changing) whose emitted entities (recording double around the real DevNullSink) must contain every main entity that changed, every main entity connected now through the join path to a dependency or link entity changed since the previous fixpoint, and - for a first outgoing hop - connected as of the previous fixpoint; emitted entities must be versions of main-dataset entities with the latest version among them; tokens never go back nor beyond the end. distinct = distinct canonical end states"
 		r.Assumptions = []string{"entity ids are distinct per dataset (an id living in two datasets of the chain is outside)", "no write happens while the job runs: the graph as it stands when the job runs is the model's current graph", "track_queries (JavaScript) registration is not exercised, only declared dependencies"}
 		shapes := c18Shapes()
 		type cfg struct {
@@ -739,6 +746,23 @@ func init() {
 			plan = []cfg{{shapes[:6], []int{1, 100}, 3, 60 * time.Second}, {shapes[6:], []int{2}, 2, 40 * time.Second}}
 		} else {
 			plan = []cfg{{shapes[:6], []int{1, 2, 100}, 4, 30 * time.Minute}, {shapes[6:], []int{1, 2, 100}, 3, 30 * time.Minute}}
+		}
+		// the same job declared with LatestOnly, for the shapes whose first hop is outgoing (the previous-run lookup)
+		for _, s := range shapes {
+			if len(s.Deps) != 1 || s.Deps[0].Joins[0].Inv || len(s.Deps[0].Joins) > 2 {
+				continue
+			}
+			depth, budget := 3, 60*time.Second
+			if !r.Quick() {
+				depth, budget = 4, 30*time.Minute
+			}
+			params, _ := json.Marshal(c18Params{Shape: s, Batch: 1, LatestOnly: true})
+			var alpha []json.RawMessage
+			for _, o := range c18Alphabet(s, []int{1}) {
+				ob, _ := json.Marshal(o)
+				alpha = append(alpha, ob)
+			}
+			engine.RunSeq(r, engine.SeqSpec{Name: fmt.Sprintf("c18-%s-latestonly", s.Name), WorkerArgs: []string{"worker", "c18"}, Alphabet: alpha, Params: params, Depth: depth, Budget: budget})
 		}
 		for _, pc := range plan {
 			for _, s := range pc.shapes {
